@@ -1,6 +1,9 @@
 import sys
 P, used, extra = sys.argv[1], sys.argv[2], (sys.argv[3] if len(sys.argv) > 3 else "")
-D = f"/tmp/wt/r5-{P}"
+import os
+ROUND = os.environ.get("SEED_ROUND", "r5")
+STEER = os.environ.get("SEED_STEER", "")
+D = f"/tmp/wt/{ROUND}-{P}"
 print(f"""You are working in a scratch git worktree of the Python library G-BigSMILES (a polymer line notation with a stochastic molecule generator built on RDKit) at {D} . Source is in {D}/src/gbigsmiles, tests in {D}/tests, docs in README.md and SI.md. There is no network. Work ONLY inside {D} (do not read or touch /verif or /repo, and do not look elsewhere on the machine for hints).
 
 IMPORTANT environment details:
@@ -14,7 +17,7 @@ The property text is in {D}/seed_out/PROPERTY.txt — read it first. It is a sem
 YOUR TASK: write a realistic change to the library source under src/gbigsmiles (the kind of bug a maintainer could plausibly introduce during a refactor, optimisation, clean-up or small feature edit) that BREAKS this property, such that
  (a) the code still imports and runs;
  (b) the existing test suite still passes with the change: `cd {D} && PYTHONPATH={D}/src /venv/bin/python -m pytest -q -p no:cacheprovider --timeout=900 tests` (takes 6-12 minutes; on the CLEAN tree tests/test_distribution.py::test_flory_schulz always fails and ::test_schulz_zimm is flaky — ignore those two, everything else must pass);
- (c) the breakage needs something SPECIFIC to manifest — e.g. a particular sequence of random choices, a multi-step sequence of operations/calls on the same or different objects, an unusual-but-valid input shape or parameter region or way of writing the input, an exception/fault at a particular point followed by further use, or two cooperating edit sites that each look fine alone. It must NOT be something ordinary use (generating a typical README example once) would expose at once. Subtle and plausible beats blatant. Keep it small (roughly 1-15 changed lines).
+ (c) the breakage needs something SPECIFIC to manifest — {STEER or "e.g. a particular sequence of random choices, a multi-step sequence of operations/calls on the same or different objects, an unusual-but-valid input shape or parameter region or way of writing the input, an exception/fault at a particular point followed by further use, or two cooperating edit sites that each look fine alone."} It must NOT be something ordinary use (generating a typical README example once) would expose at once. Subtle and plausible beats blatant. Keep it small (roughly 1-15 changed lines).
 Ideas that have ALREADY been used for this property — pick something genuinely different (a different mechanism AND a different trigger): {used}
 
 DELIVERABLES, all in {D}/seed_out/ :
